@@ -103,7 +103,7 @@ unexpected_cfgs = { level = "allow", check-cfg = ['cfg(kani)'] }
 """ % repo)
     _write_if_changed(os.path.join(proj, ".cargo", "config.toml"), "[net]\noffline = true\n")
     lock = os.path.join(proj, "Cargo.lock")
-    if not os.path.exists(lock):
+    if not os.path.exists(lock) and os.path.exists(os.path.join(repo, "Cargo.lock")):
         shutil.copyfile(os.path.join(repo, "Cargo.lock"), lock)
     for fn in ("lib.rs", "util.rs", "checks.rs", "harnesses.rs", "dispatch.rs"):
         _copy_if_changed(os.path.join(SRC_DIR, fn), os.path.join(proj, "src", fn))
